@@ -16,4 +16,42 @@ var props = map[string]propCfg{
 		},
 		QuickSecs: 100, ThorSecs: 1500,
 	},
+	"C13": {
+		Scenarios: []scenCfg{
+			{Name: "loop", Quick: 3000, Thorough: 200000, Batch: 100},
+		},
+		Rule: "one evaluation = one simulated run of 1-3 loader tasks pushing through the real ChunkList while a coordinator task snapshots and issues Matcher.Reset requests to the real Matcher.Loop (1..32 partitions) under a seeded schedule; " +
+			"distinct = distinct event-log hash (schedule trace + request/publish history); non-trivial = at least one preemption (a runnable goroutine was passed over for another) happened in the run",
+		RealStub: map[string][]string{
+			"real": {"ChunkList", "ChunkCache", "Pattern", "Matcher.Loop/scan", "Merger", "util.EventBox", "util.AtomicBool"},
+			"stub": {"loader tasks and coordinator are played by the harness (the real Reader/coordinator run in the filter/sys harnesses)", "clock", "goroutine scheduler"},
+		},
+		QuickSecs: 100, ThorSecs: 1500,
+	},
+	"C04": {
+		Scenarios: []scenCfg{
+			{Name: "scan", Quick: 3000, Thorough: 200000, Batch: 100},
+			{Name: "loop", Quick: 1500, Thorough: 100000, Batch: 100},
+		},
+		Rule: "loop: as C13, order of every published merger incl. sort toggles and merger-cache hits. scan: one evaluation = one (list, tail, partition count, sort/tac/tiebreak, queries, worker schedule, access pattern) tuple run through the real Matcher.scan and Merger and compared with one sequential global sort using an independent comparator; " +
+			"distinct = distinct event-log hash; non-trivial = at least one preemption between partition workers",
+		RealStub: map[string][]string{
+			"real": {"ChunkList.Snapshot", "Matcher.scan/sliceChunks", "Pattern.Match", "ChunkCache", "Merger", "buildResult (trusted for the per-item rank key)"},
+			"stub": {"goroutine scheduler", "clock"},
+		},
+		QuickSecs: 100, ThorSecs: 1500,
+	},
+	"C05": {
+		Scenarios: []scenCfg{
+			{Name: "purity", Quick: 4000, Thorough: 300000, Batch: 200},
+			{Name: "scan", Quick: 1500, Thorough: 100000, Batch: 100},
+		},
+		Rule: "purity: one evaluation = a seeded sequence of MatchItem calls (items in seeded order on seeded workers) on scratch slabs with adversarial stale contents, each compared with an isolated evaluation (fresh item, nil slab); " +
+			"scan: partitioned scans with pre-poisoned per-partition slabs, rank keys compared per item; non-trivial = at least one item matched; distinct = distinct outcome signature / event-log hash",
+		RealStub: map[string][]string{
+			"real": {"Pattern.MatchItem", "algo.* matchers", "util.Slab", "Matcher.scan", "buildResult"},
+			"stub": {"goroutine scheduler (scan scenario)"},
+		},
+		QuickSecs: 100, ThorSecs: 1500,
+	},
 }
